@@ -435,3 +435,61 @@ func TestKnownVersionByte(t *testing.T) {
 	}
 	vfx.Record(t.Name(), pl, vfx.Result{Labels: []string{"known-finding-regression"}})
 }
+
+// TestBitSweep enumerates every single-bit modification of the sealed form of
+// every genuine message whose sealed length is at most 200 bytes (packet and
+// stream, with and without label, encryption versions 0 and 1). Exhaustive in
+// the thorough tier; every 24th bit in the quick tier.
+func TestBitSweep(t *testing.T) {
+	theT = t
+	step := 24
+	if vfx.Thorough() {
+		step = 1
+	}
+	k, n := vfx.Shard()
+	idx := 0
+	for _, label := range []string{"", "lbl"} {
+		for _, pv := range []uint8{2, 1} {
+			for gi, g := range corpus {
+				vsn := byte(1)
+				if pv == 1 {
+					vsn = 0
+				}
+				var sealed []byte
+				nonce := bytes.Repeat([]byte{7}, 12)
+				if g.Stream {
+					sealed = wire.LabelWrap(wire.StreamSeal(vsn, hostile.KeyA, nonce, g.Plain, label), label)
+				} else {
+					sealed = wire.LabelWrap(wire.Seal(vsn, hostile.KeyA, nonce, g.Plain, []byte(label)), label)
+				}
+				if len(sealed) > 200 {
+					continue
+				}
+				for bit := 0; bit < len(sealed)*8; bit += step {
+					idx++
+					if idx%n != k {
+						continue
+					}
+					pl := Plan{Seed: 1, Label: label, PV: pv, G: gi, Mod: Mod{Kind: "bitflip", Field: "any", Pos: (bit / 8 * 1000 + 999) / len(sealed), Bit: bit % 8}}
+					// address the byte exactly: Pos is per-mille, so verify the mapping
+					if pl.Mod.Pos*len(sealed)/1000 != bit/8 {
+						pl.Mod.Pos = bit / 8 * 1000 / len(sealed)
+						for pl.Mod.Pos*len(sealed)/1000 < bit/8 {
+							pl.Mod.Pos++
+						}
+					}
+					r := runPlan(pl)
+					r.Key = fmt.Sprintf("%s/%d/%d/%d", label, pv, gi, bit)
+					r.Labels = append(r.Labels, "sweep")
+					vfx.CheckCaseAs(t, "TestAuthentication", pl, r)
+					if r.Err != nil {
+						return
+					}
+				}
+			}
+		}
+	}
+	if step == 1 {
+		vfx.SetExhaustive("TestAuthentication", "bit sweep: every single-bit flip of every genuine sealed message <= 200 bytes x {label, no label} x {encryption version 0, 1}")
+	}
+}
